@@ -1,7 +1,7 @@
 (* C01 — Acknowledged writes are read back intact, exactly once, in write order.
    Property theorems only; each is closed by a lemma of proofs/{XBinaryP,LogEventP,WireP,JournalP,WriteP}.v. *)
 From LR Require Import lib.Base model.XBinary model.LogEvent model.Wire model.Journal model.Write.
-From LR Require Import proofs.XBinaryP proofs.LogEventP proofs.WireP.
+From LR Require Import proofs.XBinaryP proofs.LogEventP proofs.WireP proofs.JournalP proofs.WriteP proofs.InterleaveP.
 
 (* ---- byte codecs ---- *)
 
@@ -49,6 +49,160 @@ Theorem C01_wire_result : forall evs rest, Forall ae_ok evs -> count_ok evs ->
 Proof. exact events_roundtrip. Qed.
 Print Assumptions C01_wire_result.
 
+(* the write packet: init + (Get; Next)* on the server serves the client's events, write-level fields first *)
+Theorem C01_wire_packet : forall fparse tags flds evs wf fuel, len_ok tags -> len_ok flds -> count_ok evs -> Forall ae_ok evs ->
+  fparse flds = Ok wf -> (length evs < fuel)%nat ->
+  exists it, wp_init fparse (encode_wp tags flds evs) = Ok (tags, it) /\
+    wp_drain fparse fuel it = Ok (map (spec_levent fparse wf) evs).
+Proof. exact packet_roundtrip. Qed.
+Print Assumptions C01_wire_packet.
+
+(* ---- the write path ---- *)
+
+(* one Journal.Write call, any iterator obeying the Get/Next protocol, any chunk size > 0, any alignment of the
+   pending records with the chunk boundary: a non-empty prefix of the pending records is appended (nothing
+   only if nothing is pending), nothing else changes, the call does not fail *)
+Theorem C01_journal_write : forall (St : Type) get next (Rep : St -> list bytes -> Prop), iter_laws get next Rep ->
+  forall fuel cfg j s l, (0 < max_chunk cfg)%Z -> Rep s l -> (length l < fuel)%nat ->
+  exists k j' s' pos, journal_write St get next fuel cfg j s = Ok (j', s', k, pos, WNil) /\
+    flat j' = flat j ++ firstn k l /\ Rep s' (skipn k l) /\ (k <= length l)%nat /\ (l <> [] -> (1 <= k)%nat).
+Proof. exact journal_write_spec. Qed.
+Print Assumptions C01_journal_write.
+
+(* refinement: for every chunk-size configuration and every history of write requests (RPC or direct, any batch
+   sizes, any tags spelling), every request the specification accepts is acknowledged, and reading any partition
+   back returns the concatenation of its acknowledged batches: same timestamps, same message bytes, write-level
+   fields followed by the event's own fields, the partition's tag line, in write order, each event once.
+   Hypotheses: the parameter functions return Ok or Err; sizes are Go-representable; every stored record is within
+   MaxRecordSize (without this the statement is false: C01_reject_refuted). *)
+Theorem C01_readback : forall fparse norm as_kv, total fparse -> total norm ->
+  forall cfg rs fuel key, (0 < max_chunk cfg)%Z -> Forall req_ok rs -> Forall (fun r => (req_len r < fuel)%nat) rs ->
+  Forall le_ok (concat (map (spec_req fparse norm key) rs)) ->
+  Forall (fun e => (Z.of_nat (length (marshal_le e)) <= max_rec cfg)%Z) (concat (map (spec_req fparse norm key) rs)) ->
+  exists srv res, run fparse norm fuel cfg [] rs = Ok (srv, res) /\
+    map r_ack res = map (spec_ack fparse norm) rs /\
+    read_back as_kv cfg srv key = Ok (spec_content fparse norm as_kv key rs).
+Proof. exact readback. Qed.
+Print Assumptions C01_readback.
+
+(* the invariant behind it, without the size hypothesis: flattened journal = concatenation of acknowledged batches *)
+Theorem C01_journal_content : forall fparse norm, total fparse -> total norm ->
+  forall cfg rs fuel, (0 < max_chunk cfg)%Z -> Forall req_ok rs -> Forall (fun r => (req_len r < fuel)%nat) rs ->
+  exists srv res, run fparse norm fuel cfg [] rs = Ok (srv, res) /\ map r_ack res = map (spec_ack fparse norm) rs /\
+    forall key, content srv key = map iw_rec (concat (map (spec_req fparse norm key) rs)).
+Proof. exact run_total. Qed.
+Print Assumptions C01_journal_content.
+
+(* K writers on one partition, atomic step = one Journal.Write call, ANY schedule: the journal grows by a log in
+   which every record belongs to exactly one writer; what a writer has written is a prefix of its batch and a
+   subsequence of the journal (own order kept); no writer fails; a writer that took max(|batch|,1) steps has its
+   whole batch in the journal, exactly once *)
+Theorem C01_interleave : forall fuel cfg j0 batches sched, (0 < max_chunk cfg)%Z -> (forall b, In b batches -> (length b < fuel)%nat) ->
+  exists st, crun fuel cfg (cinit j0 batches) sched = Ok st /\
+    flat (cs_j st) = flat j0 ++ map snd (cs_log st) /\
+    (forall p, In p (cs_log st) -> (fst p < length batches)%nat) /\
+    forall w b, nth_error batches w = Some b ->
+      (exists rest, map iw_rec b = written_by w (cs_log st) ++ rest) /\
+      subseq (written_by w (cs_log st)) (flat (cs_j st)) /\
+      (forall wr, nth_error (cs_ws st) w = Some wr -> wr_failed wr = false) /\
+      ((Nat.max (length b) 1 <= count_occ Nat.eq_dec sched w)%nat -> written_by w (cs_log st) = map iw_rec b).
+Proof. exact interleave. Qed.
+Print Assumptions C01_interleave.
+
+(* a reader between two steps sees a prefix of what a later reader sees *)
+Theorem C01_reader_prefix : forall fuel cfg j0 batches s1 s2, (0 < max_chunk cfg)%Z -> (forall b, In b batches -> (length b < fuel)%nat) ->
+  exists st1 st2, crun fuel cfg (cinit j0 batches) s1 = Ok st1 /\ crun fuel cfg (cinit j0 batches) (s1 ++ s2) = Ok st2 /\
+    exists more, flat (cs_j st2) = flat (cs_j st1) ++ more.
+Proof. exact reader_prefix. Qed.
+Print Assumptions C01_reader_prefix.
+
+(* ---- "a write the server cannot serve back must be rejected, not acknowledged" ---- *)
+Definition C01_reject_statement : Prop :=
+  forall fparse norm as_kv, total fparse -> total norm ->
+  forall cfg rs fuel key srv res, (0 < max_chunk cfg)%Z -> Forall req_ok rs -> Forall (fun r => (req_len r < fuel)%nat) rs ->
+  Forall le_ok (concat (map (spec_req fparse norm key) rs)) ->
+  run fparse norm fuel cfg [] rs = Ok (srv, res) ->
+  exists evs, read_back as_kv cfg srv key = Ok evs.
+
+Definition big_msg : bytes := repeat x78 30.
+Definition reject_witness : list req :=
+  [RpcW {| w_tags := [x61]; w_flds := []; w_evs := [{| ae_ts := 1; ae_msg := big_msg; ae_tags := []; ae_flds := [] |}] |}].
+
+(* the faithful model violates it: a 30-byte message with MaxRecordSize = 20 is acknowledged, then the read fails *)
+Theorem C01_reject_refuted : ~ C01_reject_statement.
+Proof.
+  intros H.
+  assert (T : total (fun _ : bytes => Ok [])) by (intros b; right; exists []; reflexivity).
+  assert (T' : total (fun t : bytes => Ok t)) by (intros b; right; exists b; reflexivity).
+  specialize (H (fun _ => Ok []) (fun t => Ok t) (fun b => b) T T'
+                {| max_chunk := 1000; max_rec := 20 |} reject_witness 5%nat [x61]).
+  edestruct H as (evs & E).
+  - reflexivity.
+  - repeat constructor; unfold len_ok, count_ok, in_i64; cbn; lia.
+  - repeat constructor.
+  - repeat constructor; unfold len_ok, in_i64; cbn; lia.
+  - vm_compute. reflexivity.
+  - vm_compute in E. discriminate.
+Qed.
+Print Assumptions C01_reject_refuted.
+
+(* what holds: when every acknowledged record is within MaxRecordSize every partition can be read after every history *)
+Theorem C01_reject_partial : forall fparse norm as_kv, total fparse -> total norm ->
+  forall cfg rs fuel key srv res, (0 < max_chunk cfg)%Z -> Forall req_ok rs -> Forall (fun r => (req_len r < fuel)%nat) rs ->
+  Forall le_ok (concat (map (spec_req fparse norm key) rs)) ->
+  Forall (fun e => (Z.of_nat (length (marshal_le e)) <= max_rec cfg)%Z) (concat (map (spec_req fparse norm key) rs)) ->
+  run fparse norm fuel cfg [] rs = Ok (srv, res) ->
+  exists evs, read_back as_kv cfg srv key = Ok evs.
+Proof.
+  intros fparse norm as_kv Hf Hn cfg rs fuel key srv res Hmax Hok Hfu Hle Hsz Hrun.
+  destruct (readback fparse norm as_kv Hf Hn cfg rs fuel key Hmax Hok Hfu Hle Hsz) as (srv' & res' & Hrun' & _ & Hrb).
+  rewrite Hrun in Hrun'. injection Hrun' as <- <-. eexists. exact Hrb.
+Qed.
+Print Assumptions C01_reject_partial.
+
+(* a raw request body: an acknowledged packet stores as many events as it declares *)
+Definition C01_reject_truncated_statement : Prop :=
+  forall fparse norm, total fparse -> total norm ->
+  forall cfg fuel body srv res tags it key, (0 < max_chunk cfg)%Z ->
+  ingest fparse norm fuel cfg [] body = Ok (srv, res) -> r_ack res = true ->
+  wp_init fparse body = Ok (tags, it) -> norm tags = Ok key ->
+  N.of_nat (length (content srv key)) = wp_recs it.
+
+Definition truncated_witness : bytes :=
+  marshal_bytes [x61] ++ marshal_bytes [] ++ marshal_u32 2 ++
+  write_api_event {| ae_ts := 7; ae_msg := [x6f; x6e; x6c; x79]; ae_tags := []; ae_flds := [] |}.
+
+(* refuted: the count says 2, one event is carried; wpIterator.Get turns the decode error into EOF, the write is
+   acknowledged with one event stored *)
+Theorem C01_reject_truncated_refuted : ~ C01_reject_truncated_statement.
+Proof.
+  intros H.
+  assert (T : total (fun _ : bytes => Ok [])) by (intros b; right; exists []; reflexivity).
+  assert (T' : total (fun t : bytes => Ok t)) by (intros b; right; exists b; reflexivity).
+  specialize (H (fun _ => Ok []) (fun t => Ok t) T T' {| max_chunk := 1000; max_rec := 1000 |} 100%nat truncated_witness).
+  evar (srv : server). evar (res : wres). evar (it : wpit).
+  specialize (H srv res [x61] it [x61] eq_refl).
+  assert (E : N.of_nat (length (content srv [x61])) = wp_recs it).
+  { apply H; subst srv res it; vm_compute; reflexivity. }
+  subst srv it. vm_compute in E. discriminate.
+Qed.
+Print Assumptions C01_reject_truncated_refuted.
+
 (* non-vacuity of the hypotheses *)
 Example C01_ok_event : le_ok {| le_ts := (-9223372036854775808)%Z; le_msg := [x00; xff; x80]; le_flds := [x01; x61; x01; x62] |}.
 Proof. unfold le_ok, in_i64, len_ok. cbn. repeat split; lia. Qed.
+
+(* the hypotheses of C01_readback are satisfiable by a history in which a batch with fields on both levels spans a
+   chunk roll-over (three chunks) *)
+Definition ex_fparse (b : bytes) : outcome bytes := match b with [] => Ok [] | _ => Ok [x01; x6b; x01; x76] end.
+Definition ex_reqs : list req :=
+  [RpcW {| w_tags := [x61]; w_flds := [x6b; x3d; x76];
+           w_evs := [{| ae_ts := 1; ae_msg := repeat x6d 20; ae_tags := []; ae_flds := [x6b; x3d; x76] |};
+                     {| ae_ts := (-2); ae_msg := []; ae_tags := []; ae_flds := [] |};
+                     {| ae_ts := 3; ae_msg := repeat x00 25; ae_tags := []; ae_flds := [] |}] |};
+   DirW [x61] [{| le_ts := 4; le_msg := [xff]; le_flds := [] |}]].
+Example C01_readback_nonvacuous :
+  exists srv res, run ex_fparse (fun t => Ok t) 10 {| max_chunk := 40; max_rec := 100 |} [] ex_reqs = Ok (srv, res) /\
+    length (srv_get srv [x61]) = 3%nat /\ map r_ack res = [true; true] /\
+    exists l, read_back (fun b => b) {| max_chunk := 40; max_rec := 100 |} srv [x61] = Ok l /\ length l = 4%nat.
+Proof. eexists _, _. split; [vm_compute; reflexivity|]. vm_compute. repeat split. eexists. split; reflexivity. Qed.
